@@ -41,6 +41,7 @@ type Sim struct {
 	events   int64
 	maxEv    int64
 	stopped  bool
+	overrun  bool
 	yieldOn  map[string]bool
 	yieldAll bool
 	chNames  map[[32]byte]string
@@ -130,15 +131,27 @@ func (s *Sim) Event(actor, typ, detail string) {
 		return
 	}
 	s.events++
+	if s.events == s.maxEv {
+		s.overrun = true
+		s.Res.Count("probe.event_cap_hit", 1)
+	}
 	if now == s.lastT && s.events > 1 {
 		s.Res.Count("probe.same_instant_events", 1)
 	}
 	s.lastT = now
 	s.ilv = kernel.Derive(s.ilv, actor, typ)
-	if s.Trace {
+	if s.Trace && !s.overrun {
 		s.Res.Trace = append(s.Res.Trace, fmt.Sprintf("%12.3fus %-8s %-14s %s", float64(now)/1e3, actor, typ, detail))
 	}
 	kernel.Progress()
+}
+
+// Overrun reports whether the run exceeded its cap on seam events; the bus then
+// stops delivering so that message storms die out.
+func (s *Sim) Overrun() bool {
+	s.mu.Lock()
+	defer s.mu.Unlock()
+	return s.overrun
 }
 
 // Note adds a trace line that is not a seam event.
